@@ -193,10 +193,12 @@ impl StatusMessage {
     }
 
     pub fn encode(&self) -> Vec<u8> {
+        // the status travels as text ('s' followed by "ok", "nok", ...), which is what `decode` reads
+        let text = self.status.to_string();
         let mut buf = BytesMut::new();
-        buf.put_u16(3);
+        buf.put_u16(1 + text.len() as u16);
         buf.put_u8(HANDSHAKE_TAG_S);
-        buf.put_u16(self.status as u16);
+        buf.put_slice(text.as_bytes());
         buf.to_vec()
     }
 
